@@ -153,6 +153,9 @@ def triple_spec(i, o, e, share):
     return toks
 
 
+CLOSED_SETS = ["0", "1", "2", "01", "02", "12", "012"]
+
+
 def gen_c05(ctx):
     cases = []
     for i, o, e in itertools.product(KINDS, repeat=3):
@@ -164,6 +167,12 @@ def gen_c05(ctx):
         cases.append(f"in={a} out={b} err={c} det=0 thread=1 argv={TRUE}")
     for a, b, c in [("N", "M", "N"), ("N", "N", "M"), ("N", "N", "N")] * 2:
         cases.append(f"in={a} out={b} err={c} det=0 argv={TRUE}")
+    # a caller that runs daemon-style, with some of its own descriptors 0-2 closed: the library's pipes land there
+    kinds = ["N", "P"] if ctx.tier == "quick" else ["N", "P", "F", "R"]
+    for closed in CLOSED_SETS:
+        for i, o, e in itertools.product(kinds, repeat=3):
+            a, b, c = triple_spec(i, o, e, True)
+            cases.append(f"in={a} out={b} err={c} det=0 argv={TRUE} closed={closed}")
     return cases
 
 
@@ -198,8 +207,13 @@ def oracle_c05(c, viol):
     obj = c["obj"]
     def oid(k):
         return ":".join(obj[k].split(":")[:2])
+    closed = [int(ch) for ch in kv.get("closed", "")]
     for n, (name, tok) in enumerate((("in", i), ("out", o), ("err", e))):
-        if tok == "N":
+        if tok == "N" and n in closed:
+            v = snap.get(f"fd{n}")
+            if v is not None and v.split(":")[3] != "1":
+                viol(f"the parent's fd {n} is closed and the stream is inherited, but the child was started with an open fd {n} ({v})")
+        elif tok == "N":
             if cid(n) != oid(f"p{n}"):
                 viol(f"child fd {n} is not the parent's own fd {n} (inherit)")
         elif tok == "P":
@@ -220,7 +234,8 @@ def oracle_c05(c, viol):
         if c["pfd"]["dropped"].get(n) != c["pfd"]["before"].get(n):
             viol(f"the parent's own fd {n} changed or was closed by the spawn ({c['pfd']['before'].get(n)} -> {c['pfd']['dropped'].get(n)})")
     for l in c["log"]:
-        if re.match(r"P (close [012] |dup2 \d+ [012] |fcntl [012] SETFD)", l):
+        m = re.match(r"P (?:close ([012]) |dup2 \d+ ([012]) |fcntl ([012]) SETFD)", l)
+        if m and int(m.group(1) or m.group(2) or m.group(3)) not in closed:
             viol(f"the parent touched its own standard stream: {l}")
 
 
@@ -258,7 +273,12 @@ def gen_c06(ctx):
             spec += " gid=1000"
         elif r == 2:
             spec += " uid=1000 gid=1000"
+        if "R" not in spec and rng.below(3) == 0:
+            spec += " viaclone=1"
         cases.append(spec)
+    # every field of a configuration survives try_clone()
+    cases.append(f"in=N out=N err=N det=0 pgid=1 viaclone=1 argv={TRUE}")
+    cases.append(f"in=N out=N err=N det=0 uid=1000 gid=1001 pgid=1 cwd={hx(cw[10])} exe={hx('/bin/true')} viaclone=1 argv={hx('zz')} env={hx('A')}:{hx('1')}")
     # NUL bytes must be rejected before anything is started
     cases.append(f"in=P out=P err=P det=0 argv={hx(b'/bin/true')},{hx(b'a' + bytes([0]) + b'b')}")
     cases.append(f"in=N out=P err=N det=0 argv={hx(b'/bin/tr' + bytes([0]) + b'ue')}")
@@ -344,6 +364,10 @@ def gen_c07(ctx, probe_results=None):
     for (a, b, c) in triples:
         for det in (0, 1):
             base.append(f"in={a} out={b} err={c} det={det} cwd={hx(cw[10])} uid=0 gid=0 pgid=1 argv={TRUE}")
+    # fault injection with the status pipe on descriptors 0-2 (the relocation's own dup can fail too)
+    for closed in ("01", "012", "12"):
+        for (a, b, c) in (("P", "P", "P"), ("N", "P", "N")):
+            base.append(f"in={a} out={b} err={c} det={len(base) % 2} cwd={hx(cw[10])} uid=0 gid=0 pgid=1 argv={TRUE} closed={closed}")
     if probe_results is None:
         return base
     cases = []
@@ -364,6 +388,13 @@ def gen_c07(ctx, probe_results=None):
         cases.append(f"in=P out=N err=M det={det} argv={hx(os.path.join(dirs['noexec'], 'prog'))}")
         cases.append(f"in=N out=P err=N det={det} cwd={hx(dirs['missing'])} argv={TRUE}")
         cases.append(f"in=N out=N err=N det={det} argv={hx('prog')} path={hx(dirs['missing'] + ':' + dirs['noexec'])}")
+    # the caller runs with some of its descriptors 0-2 closed: the launch-status pipe lands there and must survive the
+    # child's stream set-up
+    for closed in CLOSED_SETS:
+        for i, o, e in itertools.product(["N", "P"], repeat=3):
+            for prog in ([os.path.join(dirs['missing'], 'prog')] if ctx.tier == "quick" else
+                         [os.path.join(dirs['missing'], 'prog'), os.path.join(dirs['noexec'], 'prog'), "/bin/true"]):
+                cases.append(f"in={i} out={o} err={e} det={(len(cases)) % 2} argv={hx(prog)} closed={closed}")
     return cases
 
 
@@ -417,6 +448,10 @@ def gen_c08(ctx):
         npipes = 1 + (i, o, e).count("P")
         for k in range(1, npipes + 1):
             cases.append(f"in={i} out={o} err={e} det=0 live=0 argv={TRUE} window={k}")
+    # the caller runs with some of its descriptors 0-2 closed
+    for closed in CLOSED_SETS:
+        for i, o, e in itertools.product(["N", "P"], repeat=3):
+            cases.append(f"in={i} out={o} err={e} det=0 live={(0, 2)[len(cases) % 2]} argv={TRUE} closed={closed}")
     return cases
 
 
@@ -453,6 +488,11 @@ def oracle_c08(c, viol):
         return
     for k, v in snap.items():
         m = re.match(r"fd(\d+)$", k)
+        closed = [int(ch) for ch in c["kv"].get("closed", "")]
+        kinds = (c["kv"]["in"], c["kv"]["out"], c["kv"]["err"])
+        if m and int(m.group(1)) in closed and kinds[int(m.group(1))] == "N" and v.split(":")[3] != "1":
+            viol(f"the parent's fd {m.group(1)} is closed and that stream is inherited, but the child holds an open fd {m.group(1)} "
+                 f"({v}) across exec: a descriptor the library created leaks")
         if m and int(m.group(1)) > 2 and v.split(":")[3] != "1":
             viol(f"the child holds descriptor {m.group(1)} ({v}) across exec: it is not close-on-exec "
                  f"(a pipe end of the parent / the status channel / another child's pipe leaks)")
@@ -637,6 +677,10 @@ def to_request(c):
         elif kind == "fcntl":
             if t[3] == "GETFD":
                 ev = f"getfd{t[2]}=" + (("e" + res[1:]) if res.startswith("E") else "v" + res)
+            elif t[3] == "DUPFD_CLOEXEC" and t[4] == "3":
+                ev = f"dupfd{t[2]}=" + (("e" + res[1:]) if res.startswith("E") else "v" + res)
+            elif t[3].startswith("DUPFD"):
+                ev = f"unknown-{t[3]}.{t[4]}=ok"      # an inheritable copy, or one allowed below 3: not what the model does
             else:
                 ev = f"setfd{t[2]}.{t[4]}=" + r_ok()
         elif kind == "fork":
